@@ -364,16 +364,20 @@ fn add_graph_constant(
     } else {
         // Constant data is stored inline in model
         let graph_node = if let Some(float_data) = constant.data_as_float_data() {
-            let const_data = constant_data_from_flatbuffers_vec(storage, float_data.data(), &shape);
+            let const_data =
+                constant_data_from_flatbuffers_vec(storage, float_data.data(), &shape, name)?;
             graph.add_constant(name, const_data)
         } else if let Some(int_data) = constant.data_as_int_32_data() {
-            let const_data = constant_data_from_flatbuffers_vec(storage, int_data.data(), &shape);
+            let const_data =
+                constant_data_from_flatbuffers_vec(storage, int_data.data(), &shape, name)?;
             graph.add_constant(name, const_data)
         } else if let Some(int8_data) = constant.data_as_int_8_data() {
-            let const_data = constant_data_from_flatbuffers_vec(storage, int8_data.data(), &shape);
+            let const_data =
+                constant_data_from_flatbuffers_vec(storage, int8_data.data(), &shape, name)?;
             graph.add_constant(name, const_data)
         } else if let Some(uint8_data) = constant.data_as_uint_8_data() {
-            let const_data = constant_data_from_flatbuffers_vec(storage, uint8_data.data(), &shape);
+            let const_data =
+                constant_data_from_flatbuffers_vec(storage, uint8_data.data(), &shape, name)?;
             graph.add_constant(name, const_data)
         } else {
             return Err(load_error!(
@@ -390,18 +394,35 @@ fn add_graph_constant(
 ///
 /// If the data is correctly aligned and the system is little-endian, this will
 /// return a view, otherwise it will copy the data into an owned tensor.
+///
+/// Returns an error if the number of elements does not match `shape`.
 fn constant_data_from_flatbuffers_vec<'a, T: FromByteArray + flatbuffers::Follow<'a, Inner = T>>(
     storage: &Arc<ConstantStorage>,
     fb_vec: flatbuffers::Vector<'a, T>,
     shape: &[usize],
-) -> ConstantNodeData<T> {
+    name: Option<&str>,
+) -> Result<ConstantNodeData<T>, LoadError> {
+    let data_len = fb_vec.len();
+    let shape_error = || {
+        load_error!(
+            GraphError,
+            name,
+            "length {} does not match shape {:?}",
+            data_len,
+            shape
+        )
+    };
     if let Some(elements) = cast_le_bytes(fb_vec.bytes()) {
         let storage =
             ArcSlice::new(storage.clone(), elements).expect("storage does not contain data");
-        ArcTensorView::from_data(shape, storage).into()
+        ArcTensorView::try_from_data(shape, storage)
+            .map(|view| view.into())
+            .map_err(|_| shape_error())
     } else {
         let data: Vec<T> = fb_vec.iter().collect();
-        ArcTensor::from_data(shape, Arc::new(data)).into()
+        ArcTensor::try_from_data(shape, Arc::new(data))
+            .map(|tensor| tensor.into())
+            .map_err(|_| shape_error())
     }
 }
 
@@ -424,24 +445,50 @@ fn constant_data_from_storage_offset<T: LeBytes + FromByteArray>(
     offset: usize,
     name: Option<&str>,
 ) -> Result<ConstantNodeData<T>, LoadError> {
-    let n_elements: usize = shape.iter().product();
-    let byte_len = n_elements * std::mem::size_of::<T>();
+    // Compute the byte range with checked arithmetic. The shape comes from the
+    // file, so the element count may not fit in a `usize`.
+    let n_elements = if shape.contains(&0) {
+        Some(0usize)
+    } else {
+        shape
+            .iter()
+            .try_fold(1usize, |len, &size| len.checked_mul(size))
+    };
+    let byte_range = n_elements
+        .and_then(|n| n.checked_mul(std::mem::size_of::<T>()))
+        .and_then(|byte_len| offset.checked_add(byte_len))
+        .map(|end| offset..end);
 
-    let Some(bytes) = storage.data().get(offset..offset + byte_len) else {
+    let Some(bytes) = byte_range.and_then(|range| storage.data().get(range)) else {
         return Err(load_error!(GraphError, name, "invalid tensor data offset"));
     };
 
+    let shape_error = |data_len: usize| {
+        load_error!(
+            GraphError,
+            name,
+            "length {} does not match shape {:?}",
+            data_len,
+            shape
+        )
+    };
+
     if let Some(elements) = cast_le_bytes(bytes) {
+        let data_len = elements.len();
         let storage =
             ArcSlice::new(storage.clone(), elements).expect("storage does not contain data");
-        let const_data: ConstantNodeData<T> = ArcTensorView::from_data(shape, storage).into();
-        Ok(const_data)
+        ArcTensorView::try_from_data(shape, storage)
+            .map(|view| view.into())
+            .map_err(|_| shape_error(data_len))
     } else {
         let data: Vec<_> = bytes
             .chunks(std::mem::size_of::<T>())
             .map(|chunk| T::from_le_bytes(chunk.try_into().unwrap()))
             .collect();
-        Ok(ArcTensor::from_data(shape, Arc::new(data)).into())
+        let data_len = data.len();
+        ArcTensor::try_from_data(shape, Arc::new(data))
+            .map(|tensor| tensor.into())
+            .map_err(|_| shape_error(data_len))
     }
 }
 
